@@ -3,7 +3,7 @@
 Q=$1; C=$2; T=${3:-3000}
 N=$(echo "$Q$C" | tr ':/.' '___')
 cd /verif
-VERIF_PROGRESS=1 nohup timeout 3000 .venv/bin/python -c "
+VERIF_EXPLAIN=${EXPLAIN:-0} VERIF_PROGRESS=1 nohup timeout 3000 .venv/bin/python -c "
 import sys, time
 sys.path.insert(0,'/verif')
 from pyvc.load import build
